@@ -9,6 +9,7 @@ import (
 
 	"github.com/btcsuite/btcd/txscript/v2"
 	"github.com/btcsuite/btcd/wire/v2"
+	"github.com/lightningnetwork/lnd/chainntnfs"
 	"github.com/lightningnetwork/lnd/sweep"
 )
 
@@ -218,6 +219,50 @@ func (w *World) observe(tx *wire.MsgTx, phase string) (*simReq, *txInfo) {
 		}
 	}
 
+	// --- the first transaction after a restart pays no lower a rate -----------
+	// than the node's own sweep that sat in the mempool across the restart
+	// (independent of what lnd reports or stores: fee over size of the two
+	// transactions only). The old sweep, having a change output, paid
+	// fee_old = rate_old x size_old with size_old <= weight + slack, so
+	// rate_old >= fee_old*1000/wNorm_old =: floor. The new request (other
+	// grouping, other budget) continues at rate_old unless its own ceiling
+	// min(budget-over-size, MaxFeeRate) lies below: then it fails before a
+	// transaction is made or, within one block of its deadline, offers that
+	// ceiling. Whatever transaction shows up first therefore pays at least
+	// min(floor, ceiling) x actual weight.
+	if old := q.restartOld; old != nil && len(q.attempts) == 0 {
+		sizeUp := info.wNorm
+		if !info.hasChange {
+			// the node sized the transaction with a change output
+			sizeUp += 4 * int64(8+1+len(w.changePk))
+		}
+		ceilLo := q.budgetSum*1000/sizeUp - 1
+		if m := w.cfg.maxRateKW(); m < ceilLo {
+			ceilLo = m
+		}
+		bound := func(floor int64) int64 {
+			if ceilLo < floor {
+				floor = ceilLo
+			}
+			return floor*info.wAct/1000 - 1
+		}
+		// Judged first against the sweeps announced in the regular way, then
+		// against all (structural signature, see judgeRestartStart).
+		floor, sig := q.restartFloor, restartSigGhost
+		if c := q.restartOldClean; c != nil && info.fee < bound(q.restartFloorClean) {
+			old, floor, sig = c, q.restartFloorClean, ""
+		}
+		w.r.Count("restart_tx_rate_checks")
+		if ceilLo < floor {
+			w.r.Count("probe_restart_ceiling_below_reached_rate")
+		}
+		if need := bound(floor); info.fee < need {
+			w.violateSig(q, "restart-fee-rate-decreased", sig, "%s at height %d: the first transaction after the restart pays %d sat on weight %d (%d sat/kw) although the node's own sweep %s, in the mempool across the restart, paid %d sat on weight %d(+%d slack), at least %d sat/kw, and the new request's ceiling (budget %d sat) allows at least %d sat/kw: at least %d sat were due; the fee rate offered for its inputs goes down%s",
+				phase, w.height, info.fee, info.wAct, info.fee*1000/info.wAct, old.label(), old.fee, old.wAct,
+				old.wNorm-old.wAct, floor, q.budgetSum, ceilLo, need, sigNote(sig))
+		}
+	}
+
 	// --- offered fee never decreases within a request --------------------------
 	if n := len(q.attempts); n > 0 && info.fee < q.attempts[n-1].fee {
 		w.violate(q, "fee-decreased", "%s at height %d offers fee %d sat after %d sat was offered at height %d",
@@ -343,6 +388,7 @@ func (w *World) registerRequest(req *sweep.BumpRequest) *simReq {
 				q.startRate, maxLabel, maxRetry, maxFrom)
 		}
 	}
+	w.judgeRestartStart(q)
 	if int64(req.Budget) > q.budgetSum {
 		w.violate(q, "request-budget", "bump request budget %d sat exceeds the sum %d sat of the budgets attached to its inputs [%s]",
 			int64(req.Budget), q.budgetSum, strings.Join(labels, ","))
@@ -373,6 +419,30 @@ func (w *World) onResult(q *simReq, res *sweep.BumpResult) {
 			w.violate(q, "reported-rate-decreased", "%v reports fee rate %d sat/kw after %d", res.Event, rate, q.reported[n-1])
 		}
 		q.reported = append(q.reported, rate)
+		// remember which transaction this rate was announced for (what a
+		// restart has to continue from)
+		if res.Tx != nil {
+			h := res.Tx.TxHash()
+			ghost := false
+			if res.Event == sweep.TxReplaced && res.ReplacedTx != nil {
+				// was the transaction said to be replaced ever published?
+				ghost = true
+				oh := res.ReplacedTx.TxHash()
+				for _, p := range q.published {
+					if p.hash == oh {
+						ghost = false
+					}
+				}
+				if ghost {
+					w.r.Count("probe_replaced_tx_never_published")
+				}
+			}
+			for _, p := range q.published {
+				if p.hash == h {
+					p.reported, p.ghostReplaced = rate, ghost
+				}
+			}
+		}
 	case sweep.TxFailed, sweep.TxFatal, sweep.TxConfirmed, sweep.TxUnknownSpend:
 		q.terminal = true
 		q.termEvent = res.Event.String()
@@ -413,6 +483,149 @@ func (w *World) onResult(q *simReq, res *sweep.BumpResult) {
 			}
 		}
 	}
+}
+
+// ---- restart ---------------------------------------------------------------
+//
+// lnd keeps the fee function's position in memory only. Across a restart the
+// "offered fee rate never decreases" clause rests on the sweeper store: when an
+// input is offered again, the sweeper looks its outpoint up in the mempool,
+// finds its own unconfirmed sweep, reads that transaction's fee rate from the
+// store and uses it as the starting rate of the input (RBFInfo). The oracle
+// mirrors none of this: it remembers which of the node's own transactions sat
+// in the mempool and what fee rate the node had announced for it.
+
+// onRestart is called when the sweeper and the publisher have been stopped.
+// Everything lnd held in memory is gone: the live bump requests (they are not
+// judged any further) and the retry rates. The mempool, the chain, the store
+// and the wallet stay. Caller holds w.mu.
+func (w *World) onRestart() {
+	for _, q := range w.reqs {
+		if q.terminal {
+			continue
+		}
+		q.terminal = true
+		q.termEvent = "restart"
+		for _, in := range q.offered {
+			if in.live == q {
+				in.live = nil
+			}
+		}
+		w.ev(q, "gone with the restart at h=%d after %d published versions", w.height, len(q.published))
+	}
+	// spend subscriptions live inside the node's process
+	w.subs = map[wire.OutPoint][]chan *chainntnfs.SpendDetail{}
+	any := false
+	for _, in := range w.inputs {
+		in.retryRate, in.retryFrom = 0, ""
+		in.restartTx, in.hadSweep = nil, false
+		if in.final != "" {
+			continue
+		}
+		if p := w.poolSpenderLocked(in.op); p != nil {
+			in.hadSweep, any = true, true
+			w.r.Count("restart_inputs_with_own_sweep_in_mempool")
+		}
+	}
+	if any {
+		w.r.Count("probe_restart_with_own_sweep_in_mempool")
+	} else {
+		w.r.Count("probe_restart_with_empty_mempool")
+	}
+}
+
+// noteReoffer is called right before the input is offered again after a
+// restart: what is in the mempool NOW is what the sweeper's lookup can see.
+// Caller holds w.mu.
+func (w *World) noteReoffer(in *simInput) string {
+	p := w.poolSpenderLocked(in.op)
+	switch {
+	case p == nil && in.hadSweep:
+		// An input offered earlier in this restart (immediate sweep) has
+		// already replaced the transaction that also swept this input.
+		w.r.Count("probe_restart_sweep_replaced_before_reoffer")
+		return "its pre-restart sweep has just been replaced"
+	case p == nil:
+		return "not in the mempool"
+	case w.cfg.Backend != backendFullNode:
+		// documented: without a mempool lookup the node cannot know
+		w.r.Count("probe_restart_without_mempool_lookup")
+		return fmt.Sprintf("swept by %s in the mempool, which this backend cannot look up", p.label())
+	case p.reported == 0:
+		w.harness("mempool transaction %s was never announced by a TxPublished/TxReplaced result", p.label())
+		return ""
+	}
+	in.restartTx = p
+	w.r.Count("restart_inputs_with_rate_to_continue")
+	return fmt.Sprintf("swept by %s in the mempool (fee %d sat, announced at %d sat/kw)", p.label(), p.fee, p.reported)
+}
+
+// judgeRestartStart: a bump request that contains an input whose own sweep was
+// in the mempool when it was offered again after a restart starts no lower than
+// the rate announced for that sweep (RBFInfo contract; a set starts at the MAX
+// over its inputs). Holds whatever the new grouping is: a ceiling below that
+// rate makes the request fail or offer its ceiling, it does not lower the
+// request's StartingFeeRate. Caller holds w.mu.
+func (w *World) judgeRestartStart(q *simReq) {
+	var top, topClean *poolTx
+	var topIn, topCleanIn *simInput
+	for _, in := range q.offered {
+		p := in.restartTx
+		if p == nil {
+			continue
+		}
+		in.restartTx = nil
+		if top == nil || p.reported > top.reported {
+			top, topIn = p, in
+		}
+		if !p.ghostReplaced && (topClean == nil || p.reported > topClean.reported) {
+			topClean, topCleanIn = p, in
+		}
+		if !p.hasChange {
+			// its fee contains a dust remainder: says nothing about its rate
+			w.r.Count("probe_restart_old_sweep_without_change")
+			continue
+		}
+		f := p.fee * 1000 / p.wNorm
+		if q.restartOld == nil || f > q.restartFloor {
+			q.restartOld, q.restartFloor = p, f
+		}
+		if !p.ghostReplaced && (q.restartOldClean == nil || f > q.restartFloorClean) {
+			q.restartOldClean, q.restartFloorClean = p, f
+		}
+	}
+	if top == nil {
+		return
+	}
+	w.r.Count("restart_start_rate_checks")
+	// Structural signature: is the shortfall explained by a sweep whose
+	// TxReplaced result named a ReplacedTx that was never published (the
+	// publish of the previous bump failed)? Judged first without those
+	// sweeps; a shortfall there carries no signature.
+	sig := restartSigGhost
+	if topClean != nil && q.startRate < topClean.reported {
+		top, topIn, sig = topClean, topCleanIn, ""
+	}
+	if q.startRate < top.reported {
+		w.violateSig(q, "restart-starts-lower", sig, "first bump request after the restart starts at %d sat/kw although its input %s was, when offered again, still swept in the mempool by the node's own %s (fee %d sat) for which %d sat/kw had been announced: the fee rate offered for that input goes down across the restart%s",
+			q.startRate, topIn.label(), top.label(), top.fee, top.reported, sigNote(sig))
+		return
+	}
+	w.r.Count("probe_restart_rbf_info_restored")
+	if q.startRate > top.reported {
+		w.r.Count("probe_restart_starts_higher")
+	}
+}
+
+// restartSigGhost marks restart violations that go back to a sweep announced
+// by a TxReplaced result whose ReplacedTx the wallet never accepted.
+const restartSigGhost = "replaced-tx-never-published"
+
+func sigNote(sig string) string {
+	if sig == "" {
+		return ""
+	}
+	return " [" + sig + ": that sweep was announced as the replacement of a transaction whose publish had failed, so the sweeper stored no record for it]"
 }
 
 // checkDeadlines evaluates, at quiescence after a step, the "reaches its
